@@ -98,8 +98,32 @@ type world32 struct {
 	fetches []*fetchRec
 	loads   []*loadRec
 	resets  []*resetRec
-	jumps   []int // ticks of clock advances
+	jumps   []jumpRec // clock advances
 	ttl     time.Duration
+	ttls    map[pingKey]time.Duration // per-route TTLs (default w.ttl)
+	fails   func(fetchID int) bool    // which backend fetches fail (the failure is what the loader returns)
+}
+
+type jumpRec struct {
+	tick int
+	d    time.Duration
+}
+
+func (w *world32) ttlOf(k pingKey) time.Duration {
+	if d, ok := w.ttls[k]; ok {
+		return d
+	}
+	return w.ttl
+}
+
+// offsetAt: how far the harness clock had been moved ahead at a tick.
+func (w *world32) offsetAt(tick int) (d time.Duration) {
+	for _, j := range w.jumps {
+		if j.tick < tick {
+			d += j.d
+		}
+	}
+	return d
 }
 
 func (w *world32) tick() int { w.clock++; return w.clock }
@@ -114,6 +138,7 @@ var (
 	keyA  = pingKey{backendAddr: "a:25565", protocol: 765, routeGeneration: 1}
 	keyA2 = pingKey{backendAddr: "a:25565", protocol: 47, routeGeneration: 1}  // other protocol
 	keyAg = pingKey{backendAddr: "a:25565", protocol: 765, routeGeneration: 2} // other route generation
+	keyB  = pingKey{backendAddr: "b:25565", protocol: 765, routeGeneration: 1} // other backend
 )
 
 func keyName(k pingKey) string {
@@ -141,7 +166,7 @@ func (w *world32) loadVia(k pingKey, fastPath bool) {
 }
 
 func (w *world32) loadSlow(k pingKey, l *loadRec) *pingResult {
-	return w.c.load(k, w.ttl, func() *pingResult {
+	return w.c.load(k, w.ttlOf(k), func() *pingResult {
 		f := &fetchRec{id: len(w.fetches), key: k, byLoad: l.id}
 		w.fetches = append(w.fetches, f)
 		f.start = w.tick()
@@ -167,17 +192,25 @@ func (w *world32) loadSlow(k pingKey, l *loadRec) *pingResult {
 		}
 		sched.Point("fetch", nil) // the backend round trip
 		f.end = w.tick()
+		if w.fails != nil && w.fails(f.id) {
+			// a failed backend fetch: the loader's result is the error (it is cached like a status)
+			return &pingResult{err: fmt.Errorf("%s#%d", keyName(k), f.id)}
+		}
 		return &pingResult{res: &packet.StatusResponse{Status: fmt.Sprintf("%s#%d", keyName(k), f.id)}}
 	})
 }
 
 func (w *world32) finish(k pingKey, l *loadRec, res *pingResult) {
 	l.ret = w.tick()
-	if res == nil || res.res == nil {
+	if res == nil || (res.res == nil && res.err == nil) {
 		w.x.Fail("load-returned-nil", "load #%d of %s returned nil", l.id, keyName(k))
 		return
 	}
-	l.status = res.res.Status
+	if res.res != nil {
+		l.status = res.res.Status
+	} else {
+		l.status = res.err.Error()
+	}
 	name, id, _ := strings.Cut(l.status, "#")
 	fmt.Sscanf(id, "%d", &l.fetch)
 	if name != keyName(k) {
@@ -193,9 +226,11 @@ func (w *world32) reset() {
 	r.ret = w.tick()
 }
 
-func (w *world32) jump() {
-	w.offset += 2 * w.ttl
-	w.jumps = append(w.jumps, w.tick())
+func (w *world32) jump() { w.jumpBy(2 * w.ttl) }
+
+func (w *world32) jumpBy(d time.Duration) {
+	w.offset += d
+	w.jumps = append(w.jumps, jumpRec{w.tick(), d})
 }
 
 // oracle runs at the end of every schedule.
@@ -211,11 +246,11 @@ func (w *world32) oracle(expectFetches map[pingKey]int) {
 				x.Fail("stale-after-reset", "load #%d of %s started (tick %d) after reset returned (tick %d) but was answered with fetch #%d, which started at tick %d, before the reset was called (tick %d)", l.id, keyName(l.key), l.call, r.ret, f.id, f.start, r.call)
 			}
 		}
-		for _, j := range w.jumps {
-			// only a value that came out of the CACHE can be too old: a load that arrives while the
-			// leader's call is still open legitimately shares its result (singleflight contract)
-			if l.call > j && f.end < j && l.call > w.loads[f.byLoad].ret && w.loads[f.byLoad].ret != 0 {
-				x.Fail("served-beyond-ttl", "load #%d of %s started (tick %d) after the clock moved 2xTTL ahead (tick %d) and after the fetching load had returned (tick %d), but was answered from the cache with fetch #%d which completed at tick %d", l.id, keyName(l.key), l.call, j, w.loads[f.byLoad].ret, f.id, f.end)
+		// only a value that came out of the CACHE can be too old: a load that arrives while the
+		// leader's call is still open legitimately shares its result (singleflight contract)
+		if f.end != 0 && l.call > w.loads[f.byLoad].ret && w.loads[f.byLoad].ret != 0 {
+			if age := w.offsetAt(l.call) - w.offsetAt(f.end); age >= w.ttlOf(f.key) {
+				x.Fail("served-beyond-ttl", "load #%d of %s started (tick %d) when the clock had moved %v ahead since fetch #%d completed (tick %d) - the route's TTL is %v - and after the fetching load had returned (tick %d), but it was answered from the cache with that fetch", l.id, keyName(l.key), l.call, age, f.id, f.end, w.ttlOf(f.key), w.loads[f.byLoad].ret)
 			}
 		}
 	}
@@ -226,7 +261,7 @@ func (w *world32) oracle(expectFetches map[pingKey]int) {
 		}
 		for k, n := range expectFetches {
 			if got[k] != n {
-				x.Fail("cache-not-used", "%d backend status requests for %s, want %d (no reset, no expiry in this scenario)", got[k], keyName(k), n)
+				x.Fail("cache-not-used", "%d backend status requests for %s, want %d (every fetch of this scenario is forced by a miss or an expiry)", got[k], keyName(k), n)
 			}
 		}
 	}
@@ -265,9 +300,9 @@ func scenarios32() []schedrun.Scenario {
 			w := newWorld32(x)
 			x.Go("l1", func() { w.load(keyA) })
 			x.Go("l2", func() { w.load(keyA2); w.load(keyA) })
-			x.Go("l3", func() { w.load(keyAg) })
+			x.Go("l3", func() { w.load(keyAg); w.load(keyB) })
 			x.Go("r", func() { w.reset() })
-			x.AtEnd(func() { w.load(keyA); w.load(keyA2); w.load(keyAg); w.oracle(nil) })
+			x.AtEnd(func() { w.load(keyA); w.load(keyA2); w.load(keyAg); w.load(keyB); w.oracle(nil) })
 		}},
 		{Name: "two-resets", Quick: 2, Thorough: 3, Body: func(x *sched.X) {
 			w := newWorld32(x)
@@ -297,6 +332,56 @@ func scenarios32() []schedrun.Scenario {
 			x.Go("r", func() { w.reset() })
 			x.AtEnd(func() { w.load(keyA); w.oracle(nil) })
 		}},
+		// keys that differ in the BACKEND only, in flight together (no reset, no expiry: one fetch each, each answered
+		// with its own backend's status)
+		{Name: "two-backends-in-flight", Quick: 2, Thorough: 3, Body: func(x *sched.X) {
+			w := newWorld32(x)
+			x.Go("l1", func() { w.load(keyA); w.request(keyB) })
+			x.Go("l2", func() { w.load(keyB); w.request(keyA) })
+			x.Go("l3", func() { w.request(keyA) })
+			x.AtEnd(func() { w.load(keyA); w.load(keyB); w.oracle(map[pingKey]int{keyA: 1, keyB: 1}) })
+		}},
+		// failed backend fetches: the first / every second fetch fails; a failure obtained before a reset is as
+		// stale afterwards as a status
+		{Name: "failed-fetch/2-requests-vs-reset-then-request", Quick: 2, Thorough: 3, Body: func(x *sched.X) {
+			w := newWorld32(x)
+			w.fails = func(id int) bool { return id == 0 }
+			x.Go("l1", func() { w.request(keyA) })
+			x.Go("l2", func() { w.request(keyA) })
+			x.Go("r", func() { w.reset(); w.request(keyA) })
+			x.AtEnd(func() { w.request(keyA); w.oracle(nil) })
+		}},
+		{Name: "failed-fetch/warm-failure-reset-and-expiry", Quick: 2, Thorough: 3, Body: func(x *sched.X) {
+			w := newWorld32(x)
+			w.fails = func(id int) bool { return id%2 == 0 }
+			w.request(keyA) // a cached failure
+			x.Go("l1", func() { w.request(keyA); w.request(keyB) })
+			x.Go("clock", func() { w.jump(); w.request(keyA) })
+			x.Go("r", func() { w.reset() })
+			x.AtEnd(func() { w.request(keyA); w.request(keyB); w.oracle(nil) })
+		}},
+		// the route's TTL, both sides of the boundary and per route: A lives 1 h, B 4 h
+		{Name: "ttl-boundary-per-route", Quick: 2, Thorough: 3, Body: func(x *sched.X) {
+			w := newWorld32(x)
+			w.ttls = map[pingKey]time.Duration{keyB: 4 * time.Hour}
+			x.Go("t", func() {
+				w.request(keyA)
+				w.load(keyB)
+				w.jumpBy(30 * time.Minute) // +0:30: both still cached
+				w.request(keyA)
+				w.request(keyB)
+				w.jumpBy(90 * time.Minute) // +2:00: A expired, B not
+				w.request(keyA)
+				w.request(keyB)
+				w.jumpBy(90 * time.Minute) // +3:30
+				w.load(keyB)
+				w.jumpBy(30 * time.Minute) // +4:00: B expired; A (fetched at +2:00) expired at +3:00
+				w.request(keyB)
+				w.request(keyA)
+			})
+			x.Go("other", func() { w.request(keyA2) })
+			x.AtEnd(func() { w.oracle(map[pingKey]int{keyA: 3, keyB: 2, keyA2: 1}) })
+		}},
 		// the same races with requests that take the fast path get(key) before the loading path, as the real
 		// resolveStatusResponse does
 		{Name: "fast-path/2-requests-vs-reset-then-request", Quick: 2, Thorough: 3, Body: func(x *sched.X) {
@@ -318,10 +403,10 @@ func scenarios32() []schedrun.Scenario {
 			w := newWorld32(x)
 			w.request(keyA)
 			w.request(keyAg)
-			x.Go("l1", func() { w.request(keyA) })
+			x.Go("l1", func() { w.request(keyA); w.request(keyB) })
 			x.Go("l2", func() { w.request(keyA2); w.request(keyAg) })
 			x.Go("r", func() { w.reset() })
-			x.AtEnd(func() { w.request(keyA); w.request(keyA2); w.request(keyAg); w.oracle(nil) })
+			x.AtEnd(func() { w.request(keyA); w.request(keyA2); w.request(keyAg); w.request(keyB); w.oracle(nil) })
 		}},
 		{Name: "fast-path/no-reset-single-fetch", Quick: 3, Thorough: 4, Body: func(x *sched.X) {
 			w := newWorld32(x)
@@ -391,7 +476,9 @@ func readFrame(c net.Conn) ([]byte, error) {
 	return buf, err
 }
 
-// backend kinds: live answers the status request; closer accepts and closes; dead refuses.
+// backend kinds: live answers the status request; live-extra answers with a status packet that carries extra bytes
+// behind the JSON (mods do that; it is a success); closer accepts and closes; wrong-packet answers with another
+// packet (a pong); dead refuses.
 func startBackend(kind, motd string, wg *sync.WaitGroup) (addr string, stop func()) {
 	if kind == "dead" {
 		// bound, not listening: refuses, and the port cannot be handed to a later listener of this run
@@ -435,6 +522,12 @@ func startBackend(kind, motd string, wg *sync.WaitGroup) (addr string, stop func
 				}
 				js := `{"version":{"name":"x","protocol":765},"players":{"max":1,"online":0},"description":{"text":"` + motd + `"}}`
 				body := append([]byte{0x00}, append(varint(len(js)), js...)...)
+				switch kind {
+				case "live-extra":
+					body = append(body, 0x01, 0x02, 0x03)
+				case "wrong-packet":
+					body = []byte{0x01, 0, 0, 0, 0, 0, 0, 0, 42}
+				}
 				_, _ = c.Write(append(varint(len(body)), body...))
 			}()
 		}
@@ -452,7 +545,7 @@ func runFallback(r *vrt.R) {
 	var wg sync.WaitGroup
 	addrs := map[string][]string{}
 	var stops []func()
-	for _, k := range []string{"live", "dead", "closer"} {
+	for _, k := range []string{"live", "dead", "closer", "live-extra", "wrong-packet"} {
 		for i := 0; i < 3; i++ {
 			a, stop := startBackend(k, fmt.Sprintf("LIVE-%d", i), &wg)
 			addrs[k] = append(addrs[k], a)
@@ -465,7 +558,7 @@ func runFallback(r *vrt.R) {
 		}
 		wg.Wait()
 	}()
-	kinds := []string{"live", "dead", "closer"}
+	kinds := []string{"live", "dead", "closer", "live-extra", "wrong-packet"}
 	var lists [][]string
 	var rec func(cur []string)
 	rec = func(cur []string) {
@@ -492,7 +585,7 @@ func runFallback(r *vrt.R) {
 				firstLive := ""
 				for i, k := range l {
 					backends = append(backends, addrs[k][i])
-					if k == "live" && firstLive == "" {
+					if (k == "live" || k == "live-extra") && firstLive == "" {
 						firstLive = fmt.Sprintf("LIVE-%d", i)
 					}
 				}
